@@ -287,6 +287,20 @@ func (g *Gen) Xform(md protoreflect.MessageDescriptor, b []byte, depth int) []by
 			}
 		case isPackable(fd) && r.typ == protowire.BytesType:
 			els := splitPacked(fd.Kind(), r.val)
+			if elemWireType(fd.Kind()) == protowire.VarintType && els != nil && g.R.Intn(100) < 25 {
+				// the same run with some elements as padded (non-minimal) varints
+				var run []byte
+				for _, e := range els {
+					v, _ := protowire.ConsumeVarint(e)
+					if g.R.Intn(2) == 0 {
+						run = padVarint(run, v, protowire.SizeVarint(v)+1+g.R.Intn(2))
+					} else {
+						run = append(run, e...)
+					}
+				}
+				out = append(out, g.bytesRec(r.num, run))
+				continue
+			}
 			switch c := g.R.Intn(4); {
 			case els == nil || c == 0:
 				out = append(out, r)
